@@ -6,7 +6,7 @@ train  : the real ml.train (and map_loss_in_batches for validation) over several
          simulated world; a recording seam around the real get_batches sees every call the loop makes,
          and the loss computed *inside pmap* is sum|x_index - y_index| so mis-pairing shows in situ.
 
-Every sample i carries the value 8*i + channel in every component of every type, so the index tensor
+Every sample i carries the value 64*i + 8*(2k+p) + channel in every component of type (k,p), so the index tensor
 of every delivered block is recovered exactly.
 """
 from __future__ import annotations
@@ -34,10 +34,11 @@ _JIT_ID = jax.jit(lambda m: m)
 
 
 def make_mi(spec: list, L: int, D: int, spatial: tuple, is_torus: bool, offset: int = 0):
-    """spec: [[k,p,c],...] in insertion order. value(sample i, channel c) = 8*(i+offset) + c"""
+    """spec: [[k,p,c],...] in insertion order. value(sample i, type (k,p), channel c) = 64*(i+offset) + 8*(2k+p) + c,
+    so a row is attributable to its sample, its tensor type and its channel."""
     data = {}
     for k, p, c in spec:
-        base = (8.0 * (np.arange(L) + offset))[:, None] + np.arange(c)[None, :]
+        base = (64.0 * (np.arange(L) + offset))[:, None] + 8.0 * (2 * k + p) + np.arange(c)[None, :]
         blk = np.broadcast_to(base.reshape((L, c) + (1,) * (D + k)), (L, c) + tuple(spatial) + (D,) * k)
         data[(k, p)] = jnp.asarray(np.ascontiguousarray(blk), dtype=jnp.float32)
     return geom.MultiImage(data, D, is_torus)
@@ -56,6 +57,13 @@ def gen_plan(rng, profile: dict, seed: int) -> dict:
     ndev = rng.choice([1, 1, 2, 4])
     per = rng.randint(1, 4)
     B = ndev * per
+    if mode == "direct" and rng.random() < 0.04:
+        # tuning-knob blind spot: blocks large enough (>= 2^17 elements) to cross size thresholds in gather paths
+        return {
+            "mode": mode, "D": 2, "spatial": [32, 32], "L": 64, "B": 16, "ndev": rng.choice([1, 2]),
+            "specs": [[[1, 0, 1], [0, 0, 1]], [[0, 0, 1]]], "key": rng.getrandbits(31), "pre_transport": ["none", "none"],
+            "as_single": False, "is_torus": True,
+        }
     if mode == "direct":
         L = rng.randint(B, min(64, max(B, B * rng.randint(1, 6) + rng.randint(0, B - 1))))
         n_mi = rng.randint(1, 3)
@@ -87,19 +95,19 @@ def setup(job: dict, widx: int) -> dict:
 
 
 # --------------------------------------------------------------------------- oracle on one call
-def index_tensor(blk: np.ndarray, c: int, lead: int) -> Optional[np.ndarray]:
+def index_tensor(blk: np.ndarray, c: int, lead: int, tcode: int = 0) -> Optional[np.ndarray]:
     """blk shape lead-axes + (c, spatial, tensor). Returns sample index per leading position or None
-    if the block is not constant per sample / channels were disturbed."""
+    if the block is not constant per sample / channels or types were disturbed."""
     x = np.asarray(blk)
     chan = np.arange(c).reshape((1,) * lead + (c,) + (1,) * (x.ndim - lead - 1))
-    idx8 = x - chan
-    flat = idx8.reshape(idx8.shape[:lead] + (-1,))
+    idx = x - chan - 8.0 * tcode
+    flat = idx.reshape(idx.shape[:lead] + (-1,))
     if not np.all(flat == flat[..., :1]):
         return None
     v = flat[..., 0]
-    if not np.all(v % 8 == 0):
+    if not np.all(v % 64 == 0):
         return None
-    return (v // 8).astype(np.int64)
+    return (v // 64).astype(np.int64)
 
 
 def check_call(mis, specs, L, B, key_is_none, ndev, out, viol, site, bump) -> Optional[list]:
@@ -123,7 +131,7 @@ def check_call(mis, specs, L, B, key_is_none, ndev, out, viol, site, bump) -> Op
                 if blk.shape != want_shape:
                     viol("shape", {"multi_image": j, "batch": bi, "type": [k, p], "got": list(blk.shape), "want": list(want_shape)}, site)
                     return None
-                idx = index_tensor(blk, c, 2)
+                idx = index_tensor(blk, c, 2, 2 * k + p)
                 if idx is None:
                     viol("sample_integrity", {"multi_image": j, "batch": bi, "type": [k, p]}, site)
                     return None
@@ -166,8 +174,8 @@ class PairModel(models.MultiImageModule):
 def pair_map_and_loss(model, x, y, aux_data):
     """sum over the batch of |index carried by x - index carried by y|, recovered from the first
     channel of the first type of each (value = 8*i + channel)."""
-    xi = jnp.floor(next(iter(x.values())).reshape((x.get_L(), -1))[:, 0] / 8.0)
-    yi = jnp.floor(next(iter(y.values())).reshape((y.get_L(), -1))[:, 0] / 8.0)
+    xi = jnp.floor(next(iter(x.values())).reshape((x.get_L(), -1))[:, 0] / 64.0)
+    yi = jnp.floor(next(iter(y.values())).reshape((y.get_L(), -1))[:, 0] / 64.0)
     return jnp.sum(jnp.abs(xi - yi)) + 0.0 * model.w, aux_data
 
 
